@@ -13,12 +13,12 @@ from concurrent.futures.process import BrokenProcessPool
 import multiprocessing as mp
 
 
-def bfs(step, init_key, ops_enabled, depth, nproc, initializer, initargs, budget_s=1e9, chunk=8):
+def bfs(step, init_key, ops_enabled, depth, nproc, initializer, initargs, budget_s=1e9, chunk=8, root=()):
     """step(history(list of op names)) -> dict(result..., key=<canonical key>, enabled=[ops])  (runs in a worker)
     Returns (transitions: list of (history, result), stats)."""
     t0 = time.time()
-    seen = {init_key: []}
-    frontier = [([], ops_enabled)]
+    seen = {init_key: list(root)}
+    frontier = [(list(root), ops_enabled)]
     transitions = []
     stats = {"levels": [], "closed": False, "capped": False}
     ctx = mp.get_context("fork")
